@@ -163,6 +163,26 @@ func overMemory() bool {
 	return memOver
 }
 
+// Watch guards one case against a hang of the code under test that the harness cannot leave by
+// itself (a goroutine spinning inside a synctest bubble keeps synctest.Wait from returning). If
+// the returned stop function is not called within limit (real time; use a limit far above the
+// normal duration of the case), the process prints "VERIF-HANG <what>", a goroutine dump, and
+// exits with status 3; the driver reports that as a violation of class hang|<what>.
+func Watch(what string, limit time.Duration, replay interface{}) func() {
+	done := make(chan struct{})
+	go func() {
+		select {
+		case <-done:
+		case <-time.After(limit):
+			data, _ := json.Marshal(replay)
+			fmt.Fprintf(os.Stderr, "\nVERIF-HANG %s\nVERIF-HANG-REPLAY %s\n", what, data)
+			pprof.Lookup("goroutine").WriteTo(os.Stderr, 1)
+			os.Exit(3)
+		}
+	}()
+	return func() { close(done) }
+}
+
 func rssKB() int64 {
 	data, err := ioutil.ReadFile("/proc/self/statm")
 	if err != nil {
